@@ -1,8 +1,107 @@
-(* C14 - property theorems (placeholder while the proofs are being built) *)
-From Coq Require Import List Arith.
-From SV Require Import C14.Scc C14.SccSpec.
+(* C14 - SCC, topological order and condensation match their definitions (solvor/scc.py).
+   Model: SV.C14.Scc (the code WITH the fix "SCC ignores neighbours outside the given node set").
+   Specification: SV.C14.SccSpec (edge / reach / has_cycle over the subgraph induced by the node list).
+   Proved in general (all graphs, all node/neighbour orders, self loops, duplicate edges, outside neighbours):
+     topological_sort (duplicate-free node list): never out of fuel, order sound, INFEASIBLE iff cycle;
+     strongly_connected_components: never out of fuel / no exception, result is a partition of the node list;
+     condense: correct edges + acyclic GIVEN that the components are the mutual-reachability classes.
+   Not proved in general: components = mutual-reachability classes, sinks first (Tarjan's reachability
+   invariant) - full statements below, covered per run by the kernel-evaluated certificate scc_check
+   (sound: C14_scc_check_sound) on the model's and the implementation's outputs. *)
+From Coq Require Import List Arith Bool.
+From SV Require Import C14.Scc C14.SccSpec C14.Main C14.SccSpecProofs.
 Import ListNotations.
 
-Example C14_model_example :
-  scc [(0,[1]);(1,[2]);(2,[0;3]);(3,[4]);(4,[3])] [0;1;2;3;4] = Some [[4;3];[2;1;0]].
+(* ---------------------------------------------------------------- (1) topological_sort *)
+Theorem C14_topo_sound : forall g nodes order,
+  nodupb nodes = true -> topological_sort g nodes = Some (Some order) ->
+  NoDup order /\ (forall x, In x order <-> In x nodes) /\ length order = length nodes /\
+  forall u w, edge g nodes u w -> pos u order < pos w order.
+Proof. exact topo_sound. Qed.
+Print Assumptions C14_topo_sound.
+
+Theorem C14_topo_fuel_ok : forall g nodes, nodupb nodes = true -> topological_sort g nodes <> None.
+Proof. exact topo_fuel_ok. Qed.
+Print Assumptions C14_topo_fuel_ok.
+
+Theorem C14_topo_iff_acyclic : forall g nodes,
+  nodupb nodes = true -> (topological_sort g nodes = Some None <-> has_cycle g nodes).
+Proof. exact topo_iff_acyclic. Qed.
+Print Assumptions C14_topo_iff_acyclic.
+
+Theorem C14_topo_edges : forall n edges,
+  exists out, topo_edges n edges = Some out /\ topo_spec (graph_of_edges n edges) (seq 0 n) out /\
+              (out = None <-> has_cycle (graph_of_edges n edges) (seq 0 n)).
+Proof. exact topo_edges_spec. Qed.
+Print Assumptions C14_topo_edges.
+
+(* ---------------------------------------------------------------- (2) strongly_connected_components *)
+Theorem C14_scc_partition : forall g nodes,
+  exists cs, scc g nodes = Some cs /\
+    Forall (fun c => c <> []) cs /\ NoDup (concat cs) /\ forall x, In x (concat cs) <-> In x nodes.
+Proof. exact scc_partition_thm. Qed.
+Print Assumptions C14_scc_partition.
+
+Theorem C14_scc_edges_partition : forall n edges,
+  exists cs, scc_edges n edges = Some cs /\ is_partition (seq 0 n) cs.
+Proof. exact scc_edges_partition. Qed.
+Print Assumptions C14_scc_edges_partition.
+
+(* ---------------------------------------------------------------- (3) condense *)
+Theorem C14_condense : forall g nodes cs,
+  scc g nodes = Some cs -> scc_classes g nodes cs ->
+  exists succs, condense g nodes = Some (cs, succs) /\
+    cond_edges_spec g nodes cs succs /\ cond_acyclic succs.
+Proof. exact condense_thm. Qed.
+Print Assumptions C14_condense.
+
+(* ---------------------------------------------------------------- (4) classes and order: certificate *)
+Theorem C14_scc_check_sound : forall g nodes cs, scc_check g nodes cs = true -> scc_spec g nodes cs.
+Proof. exact scc_check_sound. Qed.
+Print Assumptions C14_scc_check_sound.
+
+Theorem C14_topo_check_sound : forall g nodes out, topo_check g nodes out = true -> topo_spec g nodes out.
+Proof. exact topo_check_sound. Qed.
+Print Assumptions C14_topo_check_sound.
+
+Theorem C14_cond_check_sound : forall g nodes out, cond_check g nodes out = true -> cond_spec g nodes out.
+Proof. exact cond_check_sound. Qed.
+Print Assumptions C14_cond_check_sound.
+
+(* full statements not proved in general: Main.scc_classes_full_statement, Main.scc_order_full_statement *)
+Theorem C14_scc_classes_order_partial : forall g nodes cs,
+  scc g nodes = Some cs -> scc_check g nodes cs = true ->
+  is_partition nodes cs /\ scc_classes g nodes cs /\ sinks_first g nodes cs.
+Proof. exact scc_classes_order_partial. Qed.
+Print Assumptions C14_scc_classes_order_partial.
+
+Theorem C14_condense_certified_partial : forall g nodes cs,
+  scc g nodes = Some cs -> scc_check g nodes cs = true ->
+  exists succs, condense g nodes = Some (cs, succs) /\ cond_spec g nodes (cs, succs).
+Proof. exact condense_certified. Qed.
+Print Assumptions C14_condense_certified_partial.
+
+(* ---------------------------------------------------------------- non-vacuity *)
+Definition ex_g : graph := [(0,[1]); (1,[2;1]); (2,[0;3;9]); (3,[4;4]); (4,[3]); (5,[3]); (9,[0])].
+Definition ex_nodes : list nat := [5;0;1;2;3;4].
+
+Example C14_scc_example : scc ex_g ex_nodes = Some [[4;3]; [5]; [2;1;0]].
+Proof. vm_compute. reflexivity. Qed.
+Example C14_scc_check_example : scc_check ex_g ex_nodes [[4;3]; [5]; [2;1;0]] = true.
+Proof. vm_compute. reflexivity. Qed.
+Example C14_scc_check_rejects_example : scc_check ex_g ex_nodes [[5]; [4;3]; [2;1]; [0]] = false.
+Proof. vm_compute. reflexivity. Qed.
+Example C14_condense_example : condense ex_g ex_nodes = Some ([[4;3]; [5]; [2;1;0]], [[]; [0]; [0]]).
+Proof. vm_compute. reflexivity. Qed.
+Example C14_topo_infeasible_example : nodupb ex_nodes = true /\ topological_sort ex_g ex_nodes = Some None.
+Proof. vm_compute. split; reflexivity. Qed.
+Example C14_topo_order_example :
+  nodupb [3;2;1;0] = true /\ topological_sort [(0,[1;2;7]); (1,[2;2]); (3,[0])] [3;2;1;0] = Some (Some [3;0;1;2]).
+Proof. vm_compute. split; reflexivity. Qed.
+Example C14_topo_check_example :
+  topo_check [(0,[1;2;7]); (1,[2;2]); (3,[0])] [3;2;1;0] (Some [3;0;1;2]) = true /\
+  topo_check [(0,[1;2;7]); (1,[2;2]); (3,[0])] [3;2;1;0] (Some [3;1;0;2]) = false /\
+  topo_check ex_g ex_nodes None = true.
+Proof. vm_compute. repeat split; reflexivity. Qed.
+Example C14_cond_check_example : cond_check ex_g ex_nodes ([[4;3]; [5]; [2;1;0]], [[]; [0]; [0]]) = true.
 Proof. vm_compute. reflexivity. Qed.
